@@ -76,10 +76,10 @@ double derivBound(const anasys::Solution& sol, double t0, double t1, int k, doub
 }
 
 // One integration over [t0, t0+T] with return-every-step, reports at the grid; judges clause (C) on the fly.
-RunResult runOnce(int integ, const anasys::Spec& spec, double acc, bool infNorm, const std::vector<double>& grid, double T, bool judgeInterp, bool allowInterp) {
+RunResult runOnce(int integ, const anasys::Spec& spec, double acc, bool infNorm, const std::vector<double>& grid, double T, bool judgeInterp, bool allowInterp, bool everyStep = true) {
     RunResult r; anasys::AnaSystem sys(spec); anasys::Solution sol(spec); State s0 = sys.initialState();
     std::unique_ptr<Integrator> ig = makeInteg(integ, sys, 0.01);
-    ig->setAccuracy(acc); if (infNorm) ig->setUseInfinityNorm(true); ig->setReturnEveryInternalStep(true); ig->setAllowInterpolation(allowInterp);
+    ig->setAccuracy(acc); if (infNorm) ig->setUseInfinityNorm(true); ig->setReturnEveryInternalStep(everyStep); ig->setAllowInterpolation(allowInterp);
     const double rho = spec.maxRate(), S = std::max(1.0, sol.scale(spec.t0 + T));
     try {
         ig->initialize(s0);
@@ -115,6 +115,22 @@ RunResult runOnce(int integ, const anasys::Spec& spec, double acc, bool infNorm,
     return r;
 }
 
+// One integration straight to a final time t0+Tend (setFinalTime; plain stepTo, no return-every-step); error of the state at the end
+bool runFinal(int integ, const anasys::Spec& spec, double acc, bool infNorm, double Tend, double& err, std::string& fail, std::string& reject) {
+    anasys::AnaSystem sys(spec); anasys::Solution sol(spec); State s0 = sys.initialState();
+    std::unique_ptr<Integrator> ig = makeInteg(integ, sys, 0.01);
+    ig->setAccuracy(acc); if (infNorm) ig->setUseInfinityNorm(true); ig->setFinalTime(spec.t0 + Tend);
+    const double S = std::max(1.0, sol.scale(spec.t0 + Tend));
+    try {
+        ig->initialize(s0); int guard = 0;
+        while (ig->getTime() < spec.t0 + Tend) { if (++guard > 100000) { fail = "no progress towards the final time"; return false; } ig->stepTo(spec.t0 + Tend); }
+        if (ig->getTime() != spec.t0 + Tend) { fail = "stopped at t=" + pbt::str(ig->getTime()) + " instead of the final time " + pbt::str(spec.t0 + Tend); return false; }
+        err = scaledErr(anasys::AnaSystem::yOf(ig->getState()), sol.eval(ig->getTime()), S);
+        if (!std::isfinite(err)) { fail = "non-finite state at the final time"; return false; }
+    } catch (const std::exception& e) { reject = std::string("integrator-exception: ") + std::string(e.what()).substr(0, 120); return false; }
+    return true;
+}
+
 // fixed-step run to t0+T exactly (N steps of size h); returns scaled error at the end
 bool runFixed(int integ, const anasys::Spec& spec, double h, int N, std::vector<double>& err, std::string& why) {
     anasys::AnaSystem sys(spec); anasys::Solution sol(spec); State s0 = sys.initialState();
@@ -138,10 +154,13 @@ Case decode(const pbt::Tape& t) {
     Case c; pbt::Reader g(t[0]);
     c.integ = g.pick(10); { static const char* force = getenv("C20_INTEG"); if (force) c.integ = atoi(force); }
     c.infNorm = g.chance(1, 3);
-    { int m = g.pick(8); c.mode = m == 1 || m == 5 ? 1 : m == 2 ? 2 : 0; }   // 0: accuracy ladder, 1: fixed-step order, 2: ladder with interpolation OFF and near-coincident reports
+    // 0: accuracy ladder (return-every-step, interpolated reports judged), 1: fixed-step order, 2: ladder with interpolation OFF and
+    // near-coincident reports, 3: ladder with interpolation OFF on an irregular report grid, plain stepTo (CPodes: a stop time at every
+    // report), 4: setFinalTime on short intervals, plain stepTo straight to the end (several end times)
+    { int m = g.pick(10); c.mode = (m == 1 || m == 7) ? 1 : m == 2 ? 2 : (m == 3 || m == 8) ? 3 : (m == 4 || m == 9) ? 4 : 0; }
     { static const char* fm = getenv("C20_MODE"); if (fm) c.mode = atoi(fm); }   // calibration aid only
     if (c.integ == 6) c.mode = 1;                          // SemiExplicitEuler has no error control
-    if (c.integ >= 8 && c.mode == 1) c.mode = 2;           // CPodes is variable order: no fixed-step order clause
+    if (c.integ >= 8 && c.mode == 1) c.mode = 3;           // CPodes is variable order: no fixed-step order clause
     { uint32_t w = g.w(); c.accExp = 2 + (w % 5001) / 1000.0; }           // acc = 10^-accExp in [1e-7, 1e-2]; ladder adds /100
     if (c.integ == 5 || c.integ == 7) c.accExp = 2 + (c.accExp - 2) * 0.6;   // first-order methods: [1e-5, 1e-2] (cost)
     c.T = 0.5 + 2.5 * g.unit(); if (c.T < 0.5) c.T = 0.5;
@@ -171,7 +190,7 @@ Case decode(const pbt::Tape& t) {
 void property(const pbt::Tape& t, pbt::Ctx& ctx) {
     static const bool calib = getenv("C20_CALIB") != nullptr;
     Case c = decode(t); const anasys::Spec& spec = c.spec; const double rho = spec.maxRate();
-    if (ctx.wantDesc) ctx.desc << "integrator=" << integName(c.integ) << " mode=" << (c.mode == 1 ? "fixed-step-order" : c.mode == 2 ? "accuracy-ladder/no-interpolation/near-coincident-reports" : "accuracy-ladder") << " acc=1e-" << c.accExp << " infNorm=" << c.infNorm << " T=" << c.T << " reports=" << c.grid.size() << "\nsystem: " << spec.describe() << "\n";
+    if (ctx.wantDesc) ctx.desc << "integrator=" << integName(c.integ) << " mode=" << (c.mode == 1 ? "fixed-step-order" : c.mode == 2 ? "accuracy-ladder/no-interpolation/near-coincident-reports" : c.mode == 3 ? "accuracy-ladder/no-interpolation/plain-stepTo-grid" : c.mode == 4 ? "final-time/short-intervals" : "accuracy-ladder") << " acc=1e-" << c.accExp << " infNorm=" << c.infNorm << " T=" << c.T << " reports=" << c.grid.size() << "\nsystem: " << spec.describe() << "\n";
     ctx.label(std::string("integ:") + integName(c.integ));
     if (!spec.pends.empty()) ctx.label("sys:pendulum"); if (!spec.oscs.empty()) ctx.label("sys:oscillator"); if (!spec.mix.empty()) ctx.label("sys:mixed");
     { bool stiff = false, osc = false; for (auto& b : spec.blocks) { if (!b.pair && b.a <= -10) stiff = true; if (b.pair) osc = true; } if (stiff) ctx.label("sys:stiff-block"); if (osc) ctx.label("sys:oscillatory-block"); }
@@ -209,20 +228,46 @@ void property(const pbt::Tape& t, pbt::Ctx& ctx) {
         if (!calib) ctx.check(o3 >= pj - OrderSlack, std::string(integName(c.integ)) + ": observed order " + pbt::str(o3) + " from step halving (errors " + pbt::str(e[1]) + ", " + pbt::str(e[2]) + ", " + pbt::str(e[3]) + " at h/2, h/4, h/8, h=" + pbt::str(h) + ") is below the documented order " + std::to_string(p) + (pj != p ? " (judged against 4)" : ""));
         return;
     }
-    // -------------------------------------------------------------------- (A)(B)(C) accuracy ladder
-    ctx.label(c.mode == 2 ? "mode:ladder-nointerp-tiny-gaps" : "mode:accuracy-ladder");
     const double acc0 = std::pow(10.0, -c.accExp), acc1 = acc0 / 100; const Law law = lawOf(c.integ);
-    RunResult r0 = runOnce(c.integ, spec, acc0, c.infNorm, c.grid, c.T, !calib, c.mode != 2);
+    if (c.mode == 4) {
+        // ---------------------------------------------------------------- (A)(B) at a final time, short intervals
+        ctx.label("mode:final-time-short"); if (c.integ >= 8) ctx.label("cpodes:final-time");
+        std::vector<double> ends; for (double tg : c.grid) { double Te = tg - spec.t0; if (Te >= 0.05 && (ends.empty() || Te > ends.back())) ends.push_back(Te); }
+        if (ends.size() > 6) ends.erase(ends.begin(), ends.end() - 6);
+        double worst0 = 0, worst1 = 0;
+        for (double Te : ends) {
+            double e0 = 0, e1 = 0; std::string fail, rej;
+            for (int k = 0; k < 2; ++k) {
+                if (!runFinal(c.integ, spec, k ? acc1 : acc0, c.infNorm, Te, k ? e1 : e0, fail, rej)) {
+                    if (!rej.empty()) { ctx.reject(rej.substr(0, 20)); if (ctx.wantDesc) ctx.desc << rej << "\n"; return; }
+                    ctx.fail(std::string(integName(c.integ)) + " final time " + pbt::str(Te) + " acc=" + pbt::str(k ? acc1 : acc0) + ": " + fail); return; }
+            }
+            const double g = 1 + rho * Te, b0 = law.C * g * std::pow(acc0, law.expo), b1 = law.C * g * std::pow(acc1, law.expo);
+            worst0 = std::max(worst0, e0 / b0 * law.C); worst1 = std::max(worst1, e1 / b1 * law.C);
+            if (ctx.wantDesc) ctx.desc << "final time t0+" << Te << ": error " << e0 << " at acc " << acc0 << " (bound " << b0 << "), " << e1 << " at acc " << acc1 << " (bound " << b1 << ")\n";
+            if (calib) continue;
+            if (!ctx.check(e0 <= b0, std::string(integName(c.integ)) + ": error " + pbt::str(e0) + " at the final time t0+" + pbt::str(Te) + " at accuracy " + pbt::str(acc0) + " exceeds C(1+rho T)acc^e = " + pbt::str(b0))) return;
+            if (!ctx.check(e1 <= b1, std::string(integName(c.integ)) + ": error " + pbt::str(e1) + " at the final time t0+" + pbt::str(Te) + " at accuracy " + pbt::str(acc1) + " exceeds C(1+rho T)acc^e = " + pbt::str(b1))) return;
+            if (!ctx.check(e1 <= std::max(10 * e0, std::max(1e-10 * g, 0.1 * b1)), std::string(integName(c.integ)) + ": final time t0+" + pbt::str(Te) + ": tightening the accuracy from " + pbt::str(acc0) + " to " + pbt::str(acc1) + " made the error worse: " + pbt::str(e0) + " -> " + pbt::str(e1))) return;
+        }
+        if (calib) fprintf(stderr, "CAL4 %s %.3f %g %g %d\n", integName(c.integ), c.accExp, worst0, worst1, (int)ends.size());
+        ctx.nontrivial(c.dim >= 2 && c.hasOsc && acc1 <= 1e-5);
+        return;
+    }
+    // -------------------------------------------------------------------- (A)(B)(C) accuracy ladder
+    ctx.label(c.mode == 2 ? "mode:ladder-nointerp-tiny-gaps" : c.mode == 3 ? "mode:ladder-nointerp-grid" : "mode:accuracy-ladder");
+    if (c.mode == 3 && c.integ >= 8) ctx.label("cpodes:no-interp");
+    RunResult r0 = runOnce(c.integ, spec, acc0, c.infNorm, c.grid, c.T, !calib, c.mode != 2 && c.mode != 3, c.mode != 3);
     if (!r0.reject.empty()) { ctx.reject(r0.reject.substr(0, 20)); if (ctx.wantDesc) ctx.desc << r0.reject << "\n"; return; }
     if (!r0.fail.empty()) { ctx.fail(std::string(integName(c.integ)) + " acc=" + pbt::str(acc0) + ": " + r0.fail); return; }
-    RunResult r1 = runOnce(c.integ, spec, acc1, c.infNorm, c.grid, c.T, !calib, c.mode != 2);
+    RunResult r1 = runOnce(c.integ, spec, acc1, c.infNorm, c.grid, c.T, !calib, c.mode != 2 && c.mode != 3, c.mode != 3);
     if (!r1.reject.empty()) { ctx.reject(r1.reject.substr(0, 20)); if (ctx.wantDesc) ctx.desc << r1.reject << "\n"; return; }
     if (!r1.fail.empty()) { ctx.fail(std::string(integName(c.integ)) + " acc=" + pbt::str(acc1) + ": " + r1.fail); return; }
     const double g = 1 + rho * c.T;
     const double b0 = law.C * g * std::pow(acc0, law.expo), b1 = law.C * g * std::pow(acc1, law.expo);
     if (ctx.wantDesc) ctx.desc << "acc=" << acc0 << ": worst step error " << r0.worstStep << " (bound " << b0 << "), worst interpolated " << r0.worstInterp << " (" << r0.nInterp << " of " << r0.nStates << " states), steps " << r0.steps
                                << "\nacc=" << acc1 << ": worst step error " << r1.worstStep << " (bound " << b1 << "), worst interpolated " << r1.worstInterp << " (" << r1.nInterp << " of " << r1.nStates << " states), steps " << r1.steps << "\n";
-    if (calib) fprintf(stderr, c.mode == 2 ? "CALN %s %.3f %g %g %g %g %g %g %d\n" : "CALA %s %.3f %g %g %g %g %g %g %d\n", integName(c.integ), c.accExp, g, r0.worstStep, r1.worstStep, r0.worstInterpRatio, r1.worstInterpRatio, rho, (int)c.infNorm);
+    if (calib) fprintf(stderr, c.mode == 3 ? "CAL3 %s %.3f %g %g %g %g %g %g %d\n" : c.mode == 2 ? "CALN %s %.3f %g %g %g %g %g %g %d\n" : "CALA %s %.3f %g %g %g %g %g %g %d\n", integName(c.integ), c.accExp, g, r0.worstStep, r1.worstStep, r0.worstInterpRatio, r1.worstInterpRatio, rho, (int)c.infNorm);
     if (r0.nInterp + r1.nInterp > 0) ctx.label("interpolated-states-judged");
     ctx.nontrivial(c.dim >= 2 && c.hasOsc && acc1 <= 1e-5);
     if (calib) return;
@@ -245,7 +290,7 @@ pbt::Config config() {
                      "global error law C_int (1 + rho T) acc^e_int with frozen constants (calibration table in notes/C20.md, >= 10x margin); a degradation smaller than that margin is invisible",
                      "interpolated states judged with the interpolation-theory remainder (h^4/384 max|d4y/dt4| for cubic Hermite, h^2/8 max|d2y/dt2| for the linear interpolation of ExplicitEuler) evaluated on the exact solution"};
     c.requiredLabels = {"integ:RungeKuttaMerson", "integ:RungeKutta3", "integ:RungeKutta2", "integ:RungeKuttaFeldberg", "integ:Verlet", "integ:ExplicitEuler", "integ:SemiExplicitEuler", "integ:SemiExplicitEuler2", "integ:CPodesBDF", "integ:CPodesAdams",
-                        "mode:accuracy-ladder", "mode:ladder-nointerp-tiny-gaps", "mode:fixed-step-order", "order:judged", "interpolated-states-judged", "sys:pendulum", "sys:oscillator", "sys:stiff-block", "sys:oscillatory-block", "sys:mixed"};
+                        "mode:accuracy-ladder", "mode:ladder-nointerp-tiny-gaps", "mode:ladder-nointerp-grid", "mode:final-time-short", "cpodes:no-interp", "cpodes:final-time", "mode:fixed-step-order", "order:judged", "interpolated-states-judged", "sys:pendulum", "sys:oscillator", "sys:stiff-block", "sys:oscillatory-block", "sys:mixed"};
     c.directed.push_back({"oracle-selfcheck-pendulum-closed-form", "", [](pbt::Ctx& ctx) {
         double worst = 0; for (double amp : {0.3, 1.0, 2.0, 2.5}) for (double w0 : {0.7, 3.0}) { anasys::Pend p{w0, amp, 1.3}; worst = std::max(worst, anasys::selfCheckPendulum(p, 3.0, 60000)); }
         ctx.desc << "pendulum closed form vs long double RK4 (60000 steps over T=3): max deviation " << worst << "\n";
